@@ -1,4 +1,5 @@
 """C06 - pc and its variance estimator are unbiased under multinomial sampling."""
+from ..eff import check_pure_params
 from ._pcspec import check_against_spec, is_vec, vec_with_param0
 
 CLAIMED = True
@@ -23,6 +24,9 @@ def run(r, prefix="C06"):
               "numpy.intersect1d(u, v, return_indices=True) -> (common, positions in u, positions in v) for duplicate-free u, v",
               "exact arithmetic (no floating point)")
     rep.assume("N >= 2 for pc, N >= 4 for varpc_n; samples are independent draws")
+    # "for the same counts": the estimators must leave the count vector / sample they were given untouched
+    check_pure_params(r, f"{prefix}-PURE", ["pyrepseq.stats." + n for n in ("pc_n", "pc", "varpc_n", "stdpc_n", "stdpc", "stdpc_joint")])
+    rep.floor(f"{prefix}-PURE", 7)
     check_against_spec(r, f"{prefix}-RF", "pc_n", "pc_n(n) == (P2 - P1) / (N (N - 1)), the unique unbiased estimator of sum p_i^2", vec=vec_with_param0)
     check_against_spec(r, f"{prefix}-RF", "pc", "pc: one-sample path == U2 on the multiplicities with N = len(sample); two-sample path == sum_common c1 c2 / (N1 N2)", vec=is_vec)
     check_against_spec(r, f"{prefix}-RF", "varpc_n", "varpc_n(n) == V*, the unique unbiased estimator of Var(pc)", vec=vec_with_param0)
